@@ -159,7 +159,7 @@ impl LazyRaw {
         let parsed = Box::into_raw(Box::new(v));
         match self
             .parsed
-            .compare_exchange_weak(ptr, parsed, Ordering::AcqRel, Ordering::Acquire)
+            .compare_exchange(ptr, parsed, Ordering::AcqRel, Ordering::Acquire)
         {
             // will free by drop
             Ok(_) => Ok(unsafe { &*parsed }),
